@@ -85,6 +85,25 @@ fn main() {
         println!("{}", set.len());
         return;
     }
+    if args.get(1).map(String::as_str) == Some("eval") {
+        // vmon eval '<program>' : parse with stdlib, print static type, run, print outcome
+        let src = args.get(2).cloned().unwrap_or_default();
+        let interp = simplesl::Interpreter::with_stdlib();
+        let (out, code) = real::parse_exec_in(&interp, &src, real::DEFAULT_FUEL);
+        if let Some(code) = &code {
+            use simplesl::variable::ReturnType;
+            println!("static type: {:?}", real::guarded(|| code.return_type().to_string()));
+        }
+        match &out {
+            real::Outcome::Value(v) => println!("value: {v:?}   canon: {}", oracle::canon(v)),
+            real::Outcome::Panic(p) => println!("PANIC {:?} at {}: {}", p.kind, p.loc, p.msg),
+            other => println!("{other:?}"),
+        }
+        if let Err(e) = simplesl::Code::parse(&interp, &src) {
+            println!("error text: {e}");
+        }
+        return;
+    }
     let cfg = parse_args();
     real::install_panic_hook();
     let cfg2 = cfg.clone();
@@ -105,6 +124,7 @@ fn main() {
 
 fn dispatch(cfg: &Cfg, rep: &mut Report) {
     match cfg.prop.as_str() {
+        "C03" => props::c03::run(cfg, rep),
         "C08" => props::c08::run(cfg, rep),
         "C09" => props::c09::run(cfg, rep),
         "C10" => props::c10::run(cfg, rep),
@@ -119,6 +139,7 @@ fn dispatch(cfg: &Cfg, rep: &mut Report) {
 
 fn dispatch_replay(cfg: &Cfg, kind: &str, payload: &str, rep: &mut Report) {
     match cfg.prop.as_str() {
+        "C03" => props::c03::replay(kind, payload, rep),
         "C08" => props::c08::replay(payload, rep),
         "C09" => props::c09::replay(payload, rep),
         "C10" => props::c10::replay(kind, payload, rep),
